@@ -60,9 +60,10 @@ type delayedValidator struct {
 	between func()
 	// with a clock, the validator really waits for its validation period on the FakeClock; between
 	// runs while it is blocked and must end by moving the clock past the period
-	clk  *clock.FakeClock
-	out  []disruption.Command
-	prop []disruption.Command
+	clk     *clock.FakeClock
+	noDelay bool
+	out     []disruption.Command
+	prop    []disruption.Command
 	// the re-simulation of validateCommand disagreed with the command (not a budget matter)
 	schedulingRejected bool
 }
@@ -72,16 +73,29 @@ func (d *delayedValidator) Validate(ctx context.Context, cmd disruption.Command,
 	var out disruption.Command
 	var err error
 	if d.clk != nil && d.between != nil {
-		done := make(chan struct{})
+		done, returned := make(chan struct{}), make(chan struct{})
+		ran := false
 		go func() {
 			defer close(done)
 			for !d.clk.HasWaiters() {
-				time.Sleep(200 * time.Microsecond)
+				select {
+				case <-returned: // the validator came back without ever waiting on the clock
+					return
+				default:
+					time.Sleep(200 * time.Microsecond)
+				}
 			}
+			ran = true
 			d.between()
 		}()
 		out, err = d.inner.Validate(ctx, cmd, period)
+		close(returned)
 		<-done
+		if !ran {
+			// no validation delay was observed: the world still moves before the command starts
+			d.noDelay = true
+			d.between()
+		}
 	} else {
 		if d.between != nil {
 			d.between()
@@ -203,7 +217,7 @@ func genWorld(r *kit.Rand, m int, nPools int) ([]jPool, []jNode, map[int]bool) {
 			if r.Chance(1, 2) {
 				p.Limit = ptr(r.Range(1, 8))
 			}
-		} else {
+		} else if !forceTight {
 			// the optional NodePool fields the methods read
 			switch r.Intn(12) {
 			case 0, 1:
@@ -214,13 +228,16 @@ func genWorld(r *kit.Rand, m int, nPools int) ([]jPool, []jNode, map[int]bool) {
 				p.NoConsolidation = true
 			case 4:
 				p.NoInstanceTypes = i > 1
+			case 5:
+				// a static pool next to dynamic ones: its nodes are no candidates for these methods
+				p.Static, p.Replicas = true, 6
 			}
 		}
 		pools = append(pools, p)
 	}
 	// one world in four is tight: no spare (anchor) capacity, so pods can only move to other
 	// candidates or to a replacement node (replace decisions, commands with replacements)
-	tight := m != mStaticDrift && m != mEmptiness && r.Chance(1, 4)
+	tight := m != mStaticDrift && m != mEmptiness && (forceTight || r.Chance(1, 4))
 	if m != mStaticDrift {
 		pools = append(pools, jPool{ID: 9, Name: poolName(9)})
 	}
@@ -232,6 +249,9 @@ func genWorld(r *kit.Rand, m int, nPools int) ([]jPool, []jNode, map[int]bool) {
 			continue
 		}
 		total := r.Range(0, 6)
+		if forceTight {
+			total = 3
+		}
 		if p.Static {
 			total = r.Range(1, p.Replicas+1)
 		}
@@ -263,8 +283,14 @@ func genWorld(r *kit.Rand, m int, nPools int) ([]jPool, []jNode, map[int]bool) {
 				n.Drifted = r.Chance(4, 5)
 				n.Pods = r.Intn(2)
 			}
+			if forceTight {
+				n.Pinned = false
+				if n.Pods == 0 {
+					n.Pods = 1
+				}
+			}
 			// a few already unhealthy / disrupting nodes, and states that keep a node out of candidacy
-			switch r.Intn(20) {
+			switch r.Intn(20) + map[bool]int{false: 0, true: 100}[forceTight] {
 			case 0:
 				n.Ready = "False"
 			case 1:
@@ -336,6 +362,10 @@ func genMapping(r *kit.Rand, pools []jPool, perPool map[int]int) map[int]int {
 	mp := map[int]int{}
 	for _, p := range pools {
 		n := perPool[p.ID]
+		if forceTight {
+			mp[p.ID] = n + 1 // room for every candidate: the decision needs a replacement node
+			continue
+		}
 		switch r.Intn(7) {
 		case 0: // absent: reads 0
 		case 1:
@@ -629,7 +659,22 @@ func runValidator(c *kit.Ctx, r *kit.Rand, m int) {
 		fmt.Sprintf("V:%s|%v|%v|%v|%v", methodNames[m], prop, mpID, jcur, obs))
 }
 
+// forceTight makes genWorld build worlds without spare capacity and genMapping leave room for all
+// candidates, so that replace decisions (commands with replacement NodeClaims) are certain.
+var forceTight bool
+
 func partMethods(c *kit.Ctx) {
+	forceTight = true
+	for _, m := range []int{mMulti, mMulti, mMulti, mSingle, mSingle, mDrift, mDrift} {
+		c.Count("B:" + methodNames[m] + ":world=no-spare-capacity")
+		runMethod(c, c.Rand.Fork(), m)
+	}
+	// ... and the consolidation validators re-simulate commands that carry a replacement
+	for _, m := range []int{mMulti, mMulti, mSingle, mSingle} {
+		c.Count("V:" + methodNames[m] + ":world=no-spare-capacity")
+		runValidator(c, c.Rand.Fork(), m)
+	}
+	forceTight = false
 	n := 36
 	if c.Thorough() {
 		n = 200
@@ -656,7 +701,7 @@ type recMethod struct {
 	cmds    []disruption.Command
 	called  bool
 	err     error
-	before  func() // runs just before the inner ComputeCommands (snapshots what the method will read)
+	before  func(cs []*disruption.Candidate) // runs just before the inner ComputeCommands (snapshots what the method will read)
 }
 
 // SetNodePoolTotals keeps the wrapped method visible as a NodePoolTotalsSetter (balanced scoring).
@@ -673,7 +718,7 @@ func (m *recMethod) ComputeCommands(ctx context.Context, mp map[string]int, cs .
 		m.mapping[k] = v
 	}
 	if m.before != nil {
-		m.before()
+		m.before(cs)
 	}
 	cmds, err := m.Method.ComputeCommands(ctx, mp, cs...)
 	m.cands = cs // sorted in place by the method
@@ -915,6 +960,7 @@ func runRounds(c *kit.Ctx, r *kit.Rand, nOps int) {
 	reserved := map[int]int{} // static pools: node counts reserved by StaticDrift (never released here)
 	nextID := 500
 	pendingClaim := false
+	forceM := -1
 	queued := func() map[int]bool {
 		out := map[int]bool{}
 		for pid := range w.queue.ProviderIDToCommand {
@@ -964,7 +1010,11 @@ func runRounds(c *kit.Ctx, r *kit.Rand, nOps int) {
 	}
 	for k := 0; k < nOps; k++ {
 		before := queued()
-		switch x := r.Intn(10); {
+		x := r.Intn(10)
+		if forceM >= 0 {
+			x = 5
+		}
+		switch {
 		case x < 3:
 			e := genEnv()
 			s.applyEvent(e)
@@ -972,10 +1022,14 @@ func runRounds(c *kit.Ctx, r *kit.Rand, nOps int) {
 				gops = append(gops, fmt.Sprintf("(OEnv %s, [])", t))
 			}
 			jops = append(jops, jOp{Op: "env", Event: &e})
-		case x < 8:
+		case x < 7:
 			m := m0
 			if r.Chance(1, 4) {
 				m = r.Intn(5) // also methods the world has no candidates for (static pools and emptiness, ...)
+			}
+			repeated := forceM >= 0
+			if repeated {
+				m, forceM = forceM, -1
 			}
 			var between []jEvent
 			var betweenTerms []string
@@ -1011,17 +1065,24 @@ func runRounds(c *kit.Ctx, r *kit.Rand, nOps int) {
 			}
 			// methods are kept per world, as in the running controller (the consolidation methods cache
 			// "nothing to do" until the cluster changes)
-			if methods[m] == nil || r.Chance(1, 3) {
+			if methods[m] == nil || (!repeated && r.Chance(1, 3)) {
 				methods[m] = &methodSlot{dv: &delayedValidator{clk: w.clk}}
 				methods[m].meth = w.newMethod(m, methods[m].dv, true)
 			}
 			slot := methods[m]
-			slot.dv.between, slot.dv.prop, slot.dv.out, slot.dv.schedulingRejected = dv.between, nil, nil, false
+			slot.dv.between, slot.dv.prop, slot.dv.out, slot.dv.schedulingRejected, slot.dv.noDelay = dv.between, nil, nil, false, false
 			dv = slot.dv
 			rec = &recMethod{Method: slot.meth}
 			choice := ""
-			if m == mStaticDrift {
-				rec.before = func() {
+			armPatch := false
+			rec.before = func(cs []*disruption.Candidate) {
+				if armPatch && len(cs) > 0 {
+					// the disruption taint cannot be set on one or two of the candidates
+					for k := 0; k < 2; k++ {
+						w.faults.patchNode[kit.Pick(r, cs).Name()] = 10 // more than the client-side retries
+					}
+				}
+				if m == mStaticDrift {
 					var groups []string
 					for _, p := range s.pools {
 						a, d, pd := w.cluster.NodePoolState.GetNodeCount(p.Name)
@@ -1041,18 +1102,8 @@ func runRounds(c *kit.Ctx, r *kit.Rand, nOps int) {
 				w.faults.listNodePools = r.Range(1, 6)
 				fault = fmt.Sprintf("list-nodepools-x%d", w.faults.listNodePools)
 			case 1, 3:
-				// the disruption taint cannot be set on some nodes that could be candidates
-				var live []int
-				for _, id := range s.order {
-					if n := s.nodes[id]; n.Init && n.HasNode && !n.Marked && !n.Deleting && !n.Anchor {
-						live = append(live, id)
-					}
-				}
-				for k := 0; k < 2 && len(live) > 0; k++ {
-					id := kit.Pick(r, live)
-					w.faults.patchNode[fmt.Sprintf("node-%03d", id)] = 10 // more than the client-side retries
-					fault = "patch-node"
-				}
+				armPatch = true
+				fault = "patch-node"
 				w.faults.conflict = r.Chance(1, 2)
 			case 2:
 				w.faults.createClaim = 1
@@ -1169,6 +1220,15 @@ func runRounds(c *kit.Ctx, r *kit.Rand, nOps int) {
 						c.Count("R:command=delete-only")
 					}
 				}
+			}
+			if !repeated && len(proposed) == 0 && rec.called && (m == mMulti || m == mSingle) && r.Chance(1, 2) {
+				forceM = m // ask again right away: the method remembers that there was nothing to do
+			}
+			if repeated {
+				c.Count("R:" + methodNames[m] + ":asked-again-unchanged-cluster")
+			}
+			if dv.noDelay {
+				c.Count("R:" + methodNames[m] + ":validated-without-waiting")
 			}
 			if len(newq) > 0 {
 				accepted++
